@@ -20,7 +20,8 @@ from corr.numlib import CULTURES
 
 PROP = 'C03'
 LEVEL = 'proof'
-PROPS_MODULES = ['RTV.Props.C03', 'RTV.Props.C03Frac', 'RTV.Props.C03Extract', 'RTV.Props.C03ExtractBounded']
+PROPS_MODULES = ['RTV.Props.C03', 'RTV.Props.C03Frac', 'RTV.Props.C03Extract', 'RTV.Props.C03ExtractBounded',
+                 'RTV.Props.C03ExtractPlain']
 GEN = ['nummaps', 'chartables', 'numfrac', 'numregex', 'regexes']
 REQUIRED_THEOREMS = ['digital_exact', 'digital_exact_neg', 'format_canonical', 'number_literal', 'percent_literal',
                      'digital_round16', 'separators_distinct', 'comma_dot_cultures', 'progressive_rounding_witness',
@@ -36,14 +37,15 @@ REQUIRED_THEOREMS = ['digital_exact', 'digital_exact_neg', 'format_canonical', '
                      'gen_integer_definitions', 'gen_double_definitions', 'families_ok', 'tables_ok',
                      'grouped_literal_extracted', 'grouped_decimal_literal_extracted', 'grouped_literal_sweep',
                      'de_plain_decimal_split_witness', 'nl_plain_decimal_split_witness', 'de_negative_grouped_witness',
-                     'esmx_two_groups_split_witness', 'plain_bounded', 'decimal_bounded', 'decimal_bounded_signed']
+                     'esmx_two_groups_split_witness', 'plain_bounded', 'decimal_bounded', 'decimal_bounded_signed',
+                     'plain_shapes', 'decimal_shapes', 'other_shapes', 'plain_literal_extracted', 'decimal_literal_extracted']
 RULE = ('unit: decimal ops on boundary coefficients (10^k, 10^k±1, ...5 ties) + seeded operands, p in {15, 28}; '
         '_get_digital_value / format on every literal shape (plain, grouped, decimal, grouped+decimal, ± sign) x '
         'magnitudes 0..10^15 (10^k, 10^k±1, 15- and 16-digit, 10^-6, 10^-7) x 10 configurations + seeded junk '
         'strings; pipeline: the same literals alone and in a carrier sentence through recognize_number and '
         'recognize_percentage; non-trivial = distinct (culture, query) with at least one entity')
 ASSUMPTIONS = ['CPython decimal (libmpdec) is compared with the model on every run; exponent limits Emax/Emin are not modelled',
-               'regex extraction of the literal (extractors) is outside the model: pipeline correspondence only',
+               'extraction of digit literals: modelled for the digit family of the seven BaseNumberParser extractor lists (RTV.NumExtract, regenerated regexes, backtracking matcher RTV.Re assumed to order matches as the regex module does: compared on every run); word / suffix / CJK regexes: pipeline correspondence only',
                'str.isdigit / Decimal(chr) tables exported from the running CPython (RTV/Gen/NumDigits.lean)']
 
 # marks a culture writes: (grouping, decimal) — the long-format table of recognizers_number/culture.py
